@@ -1,17 +1,335 @@
 package main
 
 import (
+	"encoding/json"
+	"flag"
 	"fmt"
-	"golang.org/x/tools/go/packages"
+	"os"
+	"path/filepath"
+	"regexp"
+	"runtime"
+	"sort"
+	"strings"
+	"time"
+
 	"golang.org/x/tools/go/ssa"
-	"golang.org/x/tools/go/ssa/ssautil"
 )
 
+var allPkgs = []string{"./message", "./sessions", "./service", "./topics"}
+
 func main() {
-	cfg := &packages.Config{Mode: packages.LoadAllSyntax, Dir: "/repo", BuildFlags: []string{"-tags=verif"}}
-	pkgs, err := packages.Load(cfg, "./message", "./sessions", "./service", "./topics")
-	if err != nil { panic(err) }
-	prog, spkgs := ssautil.AllPackages(pkgs, ssa.BuilderMode(0))
-	prog.Build()
-	for _, p := range spkgs { fmt.Println(p.Pkg.Path(), len(p.Members)) }
+	if len(os.Args) < 2 {
+		fmt.Fprintln(os.Stderr, "usage: govc check|list|dump ...")
+		os.Exit(2)
+	}
+	switch os.Args[1] {
+	case "check":
+		os.Exit(cmdCheck(os.Args[2:]))
+	case "replay":
+		os.Exit(cmdReplay(os.Args[2:]))
+	default:
+		fmt.Fprintln(os.Stderr, "unknown command")
+		os.Exit(2)
+	}
+}
+
+func cmdCheck(args []string) int {
+	fs := flag.NewFlagSet("check", flag.ExitOnError)
+	prop := fs.String("p", "", "property id")
+	tier := fs.String("tier", envOr("VERIF_TIER", "quick"), "quick|thorough")
+	fnre := fs.String("fn", "", "only functions matching this regexp")
+	repo := fs.String("repo", "/repo", "repository root")
+	keep := fs.Bool("keep", false, "keep query files")
+	verbose := fs.Bool("v", false, "verbose")
+	debug := fs.Bool("debug", false, "panic on translator errors")
+	evdir := fs.String("evidence", "/verif/evidence", "evidence directory")
+	noev := fs.Bool("noevidence", false, "do not write evidence")
+	timeout := fs.Int("timeout", 0, "per-obligation timeout seconds")
+	fs.Parse(args)
+	start := time.Now()
+	eng, err := newEngine(*repo, allPkgs)
+	if err != nil {
+		fmt.Fprintf(os.Stderr, "govc: %v\n", err)
+		return 2
+	}
+	eng.debug = *debug
+	loadMs := time.Since(start).Milliseconds()
+
+	// which functions
+	var targets []string
+	if *prop != "" {
+		pd := eng.cs.Props[*prop]
+		if pd == nil {
+			fmt.Fprintf(os.Stderr, "govc: no roots declared for property %s\n", *prop)
+			return 2
+		}
+		targets = eng.closure(pd.Roots)
+	} else {
+		for _, n := range eng.cs.Order {
+			c := eng.cs.ByTarget[n]
+			if c.Kind == "func" || c.Kind == "closure" {
+				targets = append(targets, n)
+			}
+		}
+	}
+	var re *regexp.Regexp
+	if *fnre != "" {
+		re = regexp.MustCompile(*fnre)
+	}
+	var fvs []*funcVC
+	nerr := 0
+	var under []string
+	for _, name := range targets {
+		ct := eng.cs.ByTarget[name]
+		if ct == nil || ct.Trusted {
+			continue
+		}
+		if re != nil && !re.MatchString(name) {
+			continue
+		}
+		fn := eng.funcs[name]
+		if fn == nil {
+			fmt.Printf("UNBOUND contract=%s (no such function in the current tree)\n", name)
+			nerr++
+			continue
+		}
+		t := translateFunc(eng, fn, ct)
+		fv := &funcVC{Name: eng.shortName(name), Items: t.items, Errs: t.errs, RetReach: t.retBlocks, tr: t}
+		for _, e := range t.errs {
+			fmt.Printf("UNSUPPORTED %s: %s\n", fv.Name, e)
+			nerr++
+		}
+		fvs = append(fvs, fv)
+		under = append(under, fv.Name)
+	}
+	if nerr > 0 {
+		fmt.Printf("govc: %d translation errors; the affected functions are undecided\n", nerr)
+		return 2
+	}
+	dir, _ := os.MkdirTemp("", "govc")
+	defer func() {
+		if !*keep {
+			os.RemoveAll(dir)
+		} else {
+			fmt.Println("queries kept in", dir)
+		}
+	}()
+	opt := solveOpts{timeout: 10 * time.Second, workers: runtime.NumCPU(), dir: dir, solvers: []string{"z3new", "z3", "cvc5"}, keep: *keep}
+	if *tier == "thorough" {
+		opt.timeout = 60 * time.Second
+		opt.allAgree = true
+	}
+	if *timeout > 0 {
+		opt.timeout = time.Duration(*timeout) * time.Second
+	}
+	results := solveAll(eng, fvs, opt)
+	failed := report(eng, *prop, *tier, fvs, results, under, start, loadMs, *verbose, *evdir, *noev, dir)
+	if failed > 0 {
+		return 1
+	}
+	return 0
+}
+
+func envOr(k, d string) string {
+	if v := os.Getenv(k); v != "" {
+		return v
+	}
+	return d
+}
+
+// closure: roots plus every contracted, non-trusted callee reachable from them.
+func (e *Engine) closure(roots []string) []string {
+	seen := map[string]bool{}
+	var out []string
+	var visit func(n string)
+	visit = func(n string) {
+		if seen[n] {
+			return
+		}
+		seen[n] = true
+		ct := e.cs.ByTarget[n]
+		if ct == nil || ct.Kind == "extern" || ct.Kind == "iface" {
+			return
+		}
+		out = append(out, n)
+		fn := e.funcs[n]
+		if fn == nil || ct.Trusted {
+			return
+		}
+		for _, b := range fn.Blocks {
+			for _, ins := range b.Instrs {
+				var cc *ssa.CallCommon
+				switch x := ins.(type) {
+				case *ssa.Call:
+					cc = &x.Call
+				case *ssa.Defer:
+					cc = &x.Call
+				case *ssa.MakeClosure:
+					visit(x.Fn.(*ssa.Function).String())
+					continue
+				}
+				if cc == nil {
+					continue
+				}
+				if f := cc.StaticCallee(); f != nil {
+					visit(f.String())
+				}
+				if cc.IsInvoke() {
+					// every implementation under contract must satisfy the interface contract
+					iname := ifaceMethodName(cc.Value.Type(), cc.Method)
+					if ict := e.cs.ByTarget[iname]; ict != nil {
+						for _, impl := range strings.Split(ict.Flags["impls"], ",") {
+							impl = strings.TrimSpace(impl)
+							if impl != "" {
+								visit(qualify(ict.Pkg, impl))
+							}
+						}
+					}
+				}
+			}
+		}
+	}
+	for _, r := range roots {
+		visit(r)
+	}
+	sort.Strings(out)
+	return out
+}
+
+type knownFinding struct {
+	ID         string `json:"id"`
+	Property   string `json:"property"`
+	Obligation string `json:"obligation"`
+	What       string `json:"what"`
+	Status     string `json:"status"` // open | fixed
+	Commit     string `json:"commit,omitempty"`
+}
+
+func loadKnown() []knownFinding {
+	var kf struct {
+		Findings []knownFinding `json:"findings"`
+	}
+	data, err := os.ReadFile("/verif/known_findings.json")
+	if err != nil {
+		return nil
+	}
+	json.Unmarshal(data, &kf)
+	return kf.Findings
+}
+
+func report(eng *Engine, prop, tier string, fvs []*funcVC, results []*Result, under []string, start time.Time, loadMs int64, verbose bool, evdir string, noev bool, qdir string) int {
+	known := loadKnown()
+	isKnown := func(ob *Oblig) *knownFinding {
+		for i := range known {
+			k := &known[i]
+			if k.Status == "open" && k.Obligation == ob.Name && (k.Property == prop || prop == "") {
+				return k
+			}
+		}
+		return nil
+	}
+	bySolver := map[string]int{}
+	var totalMs, maxMs int64
+	discharged, failed := 0, 0
+	var samples []map[string]interface{}
+	var viol []string
+	knownSeen := map[string]bool{}
+	for _, r := range results {
+		if r.Ms > maxMs {
+			maxMs = r.Ms
+		}
+		totalMs += r.Ms
+		if r.Status == "unsat" {
+			if kf := isKnown(r.Ob); kf != nil {
+				fmt.Printf("NOTE: known finding %s obligation %s now discharges (fixed?)\n", kf.ID, r.Ob.Name)
+			}
+			discharged++
+			bySolver[r.Solver]++
+			if len(samples) < 12 || verbose {
+				samples = append(samples, map[string]interface{}{"obligation": r.Ob.Name, "kind": r.Ob.Kind, "solver": r.Solver, "ms": r.Ms, "at": r.Ob.Pos})
+			}
+			if verbose {
+				fmt.Printf("ok    %-70s %s %dms\n", r.Ob.Name, r.Solver, r.Ms)
+			}
+			continue
+		}
+		if kf := isKnown(r.Ob); kf != nil {
+			if !knownSeen[kf.ID] {
+				fmt.Printf("KNOWN-FINDING: property=%s %s: %s (obligation %s)\n", kf.Property, kf.ID, kf.What, r.Ob.Name)
+				knownSeen[kf.ID] = true
+			}
+			continue
+		}
+		failed++
+		p := prop
+		if p == "" && len(r.Ob.Tags) > 0 {
+			p = r.Ob.Tags[0]
+		}
+		rp := writeReplay(eng, p, r, qdir)
+		suffix := ""
+		if !r.reproduced {
+			suffix = " no-failing-input-found"
+		}
+		fmt.Printf("FAILED %s [%s] %s at %s: %s\n", r.Ob.Name, r.Status, r.Ob.Kind, r.Ob.Pos, r.Ob.Desc)
+		viol = append(viol, fmt.Sprintf("VIOLATION property=%s replay=%s obligation=%s%s", p, rp, r.Ob.Name, suffix))
+	}
+	for _, v := range viol {
+		fmt.Println(v)
+	}
+	nobl := len(results)
+	wall := time.Since(start).Seconds()
+	fmt.Printf("govc: property=%s tier=%s functions=%d obligations=%d discharged=%d failed=%d known=%d load=%dms solver_total=%dms max=%dms wall=%.1fs\n",
+		prop, tier, len(fvs), nobl, discharged, failed, len(knownSeen), loadMs, totalMs, maxMs, wall)
+	if nobl == 0 {
+		fmt.Println("govc: VACUOUS: no obligations generated")
+		return 1
+	}
+	if prop != "" && !noev {
+		writeEvidence(eng, prop, tier, evdir, under, nobl, discharged, failed, len(knownSeen), bySolver, totalMs, maxMs, wall, samples)
+	}
+	return failed
+}
+
+func writeEvidence(eng *Engine, prop, tier, evdir string, under []string, nobl, discharged, failed, nknown int, bySolver map[string]int, totalMs, maxMs int64, wall float64, samples []map[string]interface{}) {
+	os.MkdirAll(evdir, 0o755)
+	seed := 0
+	fmt.Sscan(os.Getenv("VERIF_SEED"), &seed)
+	ev := map[string]interface{}{
+		"property_id": prop, "tier": tier, "seed": seed, "level": "proof", "wall_s": wall, "violations": failed,
+		"coverage": map[string]interface{}{
+			"obligations": nobl - nknown, "discharged": discharged,
+			"checker_cmd":  fmt.Sprintf("/verif/bin/govc check -p %s -tier %s", prop, tier),
+			"trusted_base": trustedBase(eng),
+			"functions_under_contract": under,
+			"discharged_by_backend":    bySolver,
+			"solver_ms_total":          totalMs, "solver_ms_max": maxMs,
+			"known_findings_seen": nknown,
+			"samples":             samples,
+		},
+		"assumptions": trustedBase(eng),
+	}
+	data, _ := json.MarshalIndent(ev, "", " ")
+	os.WriteFile(filepath.Join(evdir, prop+".json"), data, 0o644)
+}
+
+func trustedBase(eng *Engine) []string {
+	out := []string{
+		"go/packages + go/types + go/ssa (x/tools v0.29.0) represent /repo's source faithfully",
+		"govc's VC generator (this repository, /verif/govc) and the SMT solvers z3 5.1.0 / z3 4.8.12 / cvc5 1.0.3",
+		"integers are mathematical with Go's wrap-around modelled exactly on conversions and unsigned ops; signed +,-,* carry overflow obligations",
+		"every slice satisfies off+cap <= 2^56 (address-space bound)",
+		"no goroutine other than the one executing the function writes the heap locations it reads, except where a rely clause says so",
+	}
+	var ext []string
+	for _, n := range eng.cs.Order {
+		c := eng.cs.ByTarget[n]
+		if c.Trusted {
+			ext = append(ext, n)
+		}
+	}
+	sort.Strings(ext)
+	for _, n := range ext {
+		out = append(out, "trusted contract (assumed, not proved): "+n)
+	}
+	return out
 }
